@@ -39,7 +39,7 @@ theorem runAll_sessAbs : ∀ (sts : List Sql.Stmt) (s : Sess) (w : String → Sp
 shape the parser builds and the FROM clause names user tables - `SelectSide`) -/
 def Plain : Sql.Stmt → Prop
   | .createDatabase _ | .use _ | .showDatabases => True
-  | .select q => ((∃ a, q.list = [⟨.star, a⟩]) ∨ Exec.isStar q.list = false) ∧ UserTables q
+  | .select q => (Exec.NoPanicP.ParsedShape q) ∧ UserTables q
   | .delete t _ => t ≠ sysPages ∧ t ≠ sysSchema
   | .update t sets _ => (t ≠ sysPages ∧ t ≠ sysSchema) ∧ ∀ p ∈ sets, ∀ l, p.2 = .lit l → Tuple.ValidVal (Engine.litToVal l)
   | _ => False
